@@ -516,12 +516,19 @@ def block_diagonalize(
             for i, keep in to_keep.items()
         }
 
+        def _mask_like(mask, x):
+            # The mask of an exactly zero H_0 block is 1x1 because the block size is
+            # not known; numpy and scipy broadcast it, sympy does not.
+            if mask.shape == x.shape:
+                return mask
+            return sympy.Matrix(np.broadcast_to(np.array(mask), x.shape))
+
         def diag(x, index):
             x = x[index] if isinstance(x, BlockSeries) else x
             if index[0] not in to_keep:
                 return x
             if isinstance(x, sympy.MatrixBase):
-                return x.multiply_elementwise(to_keep[index[0]])
+                return x.multiply_elementwise(_mask_like(to_keep[index[0]], x))
             if sparse.issparse(x):
                 return x.multiply(to_keep[index[0]])
             return x * to_keep[index[0]]
@@ -531,7 +538,7 @@ def block_diagonalize(
                 return zero
             x = x[index] if isinstance(x, BlockSeries) else x
             if isinstance(x, sympy.MatrixBase):
-                return x.multiply_elementwise(to_eliminate[index[0]])
+                return x.multiply_elementwise(_mask_like(to_eliminate[index[0]], x))
             if sparse.issparse(x):
                 return x.multiply(to_eliminate[index[0]])
             return x * to_eliminate[index[0]]
